@@ -130,7 +130,9 @@ func (rt *runtime) cmplEvaluateNodeStatement(node nodeStatement) Value {
 }
 
 func (rt *runtime) cmplEvaluateNodeStatementList(list []nodeStatement) Value {
-	var result Value
+	// 12.1: a list that produces no value has the value empty (not undefined), so that
+	// an enclosing list keeps the value it already has: 1; {} is 1.
+	result := emptyValue
 	for _, node := range list {
 		value := rt.cmplEvaluateNodeStatement(node)
 		switch value.kind {
